@@ -113,3 +113,11 @@ CHECKS["C09"] = dict(
     design_ref="DESIGN.md section 3 C09",
     note="Crash = exception at a task boundary or inside a chunk write; completed writes are durable. Pre-existing fully initialized user targets are outside the domain (resume defines complete as all chunks present).",
 )
+
+CHECKS["C10"] = dict(
+    level="exploration",
+    technique="model-based stateful property testing (Hypothesis RuleBasedStateMachine): API call histories over a pool of related lazy arrays with a NumPy shadow per array, checksummed inputs and expected images of all earlier store targets; every step is a JSON record applied by one interpreter, so failing histories replay without Hypothesis",
+    text="Rules: new input, derive (shared op table), compute (subset, optimize, resume, executor or configured default), store/to_zarr of any member incl. ancestors of others and already stored members (eager/lazy; fresh, group, existing with equal or different chunks, region), compute earlier lazy stores, change the default executor, plan/visualize. After every step a drawn member must compute to the NumPy value fixed when it was built, all inputs must be byte-identical and every earlier target must still hold its image.",
+    design_ref="DESIGN.md section 3 C10",
+    note="Histories bounded (14 / 25 steps); single process; no external mutation of stores. Failures of a step itself are C17's business, the history continues.",
+)
